@@ -1044,10 +1044,13 @@ class WalletTransaction(Transaction):
             prev_utxos = session.query(DbTransactionOutput).join(DbTransaction).\
                 filter(DbTransaction.txid == inp.prev_txid, DbTransactionOutput.output_n == inp.output_n,
                        DbTransactionOutput.spent.is_(True), DbTransaction.wallet_id == self.hdwallet.wallet_id).all()
+            # Check if output is spent in another transaction of this wallet
+            spent_elsewhere = session.query(DbTransactionInput).join(DbTransaction).\
+                filter(DbTransactionInput.prev_txid == inp.prev_txid, DbTransactionInput.output_n == inp.output_n,
+                       DbTransactionInput.transaction_id != tx.id,
+                       DbTransaction.wallet_id == self.hdwallet.wallet_id).first()
             for u in prev_utxos:
-                # Check if output is spent in another transaction
-                if session.query(DbTransactionInput).filter(DbTransactionInput.transaction_id ==
-                                                            inp.transaction_id).first():
+                if not spent_elsewhere:
                     u.spent = False
         session.query(DbTransactionInput).filter_by(transaction_id=tx.id).delete()
         qr = session.query(DbKey).filter_by(latest_txid=txid, wallet_id=self.hdwallet.wallet_id)
